@@ -159,6 +159,23 @@ def one_case(src, mexe, idx, seed, tier):
             req = fs0.first_data_block + (fs0.groups_count - (2 if ("inline" in name or "fewinodes" in name) else r.choice([1, 1, 2]))) * fs0.blocks_per_group
         args = [str(req)]
     extra = r.choice([[], [], ["-f"], ["-p"]])
+    if kind == "grow" and req is not None and not (fs0.incompat & (INCOMPAT_FLEX_BG | INCOMPAT_META_BG)) and r.random() < 0.6:
+        # RAID stride without flex_bg: the staggered bitmap position of a new group at (and next to) the last offset of its span
+        import math
+        f_, bpg_ = fs0.first_data_block, fs0.blocks_per_group
+        G2 = -(-(req - f_) // bpg_)
+        db2 = -(-G2 // fs0.desc_per_block)
+        for g in range(fs0.groups_count, G2):
+            gfirst = f_ + g * bpg_
+            glast = min(gfirst + bpg_ - 1, req - 1)
+            first_free = gfirst + ((1 + db2 + fs0.reserved_gdt) if fs0.bg_has_super(g) else 0)
+            span = glast - (first_free + fs0.itb_per_group) + 1
+            if span > 2 and math.gcd(g, span) == 1:
+                t = (span - 1 + r.choice([0, 0, 0, -1, 1])) % span
+                stride = t * pow(g, -1, span) % span
+                if stride:
+                    extra = extra + ["-S", str(stride)]
+                    break
     recipe = {"config": name, "mke2fs": opts, "start": start, "fill": fill, "kind": kind, "args": extra + args, "case_index": idx}
     t0 = tree_of(base)
     data0 = open(base, "rb").read()
